@@ -11,15 +11,17 @@ EXTENDS Subspace, TLC, Json, SequencesExt
 
 CONSTANTS N,        \* dimension
           Mems,     \* subset of memory-menu ids explored in this run
-          ShardN, ShardK   \* this run explores the inputs whose first pattern has index = ShardK mod ShardN
+          ShardN, ShardK,  \* this run explores the inputs whose first pattern has index = ShardK mod ShardN
+          KindNames, XSet, GSel   \* sub-lattice: box kinds, positions, gradient values ("full": -2..2, "nz": no zero)
 
 \* per-variable patterns: <<kind, lo, hi>>
 Kinds == { [k |-> "free", lo |-> Inf, hi |-> Inf], [k |-> "lo", lo |-> Fin(R(0)), hi |-> Inf],
            [k |-> "hi", lo |-> Inf, hi |-> Fin(R(3))], [k |-> "box", lo |-> Fin(R(0)), hi |-> Fin(R(3))],
            [k |-> "fix", lo |-> Fin(R(2)), hi |-> Fin(R(2))] }
-XOf(kd) == IF kd.k = "fix" THEN {2} ELSE 0..3
-GVals == -2..2
-VarPatterns == UNION { { [kd |-> kd, x |-> xv, g |-> gv] : xv \in XOf(kd), gv \in GVals } : kd \in Kinds }
+XOf(kd) == IF kd.k = "fix" THEN {2} ELSE XSet
+GVals == IF GSel = "full" THEN -2..2 ELSE {-2, -1, 1, 2}
+VarPatterns == UNION { { [kd |-> kd, x |-> xv, g |-> gv] : xv \in XOf(kd), gv \in GVals }
+                       : kd \in {k \in Kinds : k.k \in KindNames} }
 
 P2(s, y) == [s |-> VInt(s), y |-> VInt(y)]
 Menu(n, m) ==
@@ -32,10 +34,11 @@ Menu(n, m) ==
                         [] m = 2 -> <<P2(<<1, 1>>, <<1, 2>>)>>
                         [] m = 3 -> <<P2(<<1, 0>>, <<2, 1>>), P2(<<0, 1>>, <<1, 1>>)>>
                         [] OTHER -> <<P2(<<1, -1>>, <<2, -1>>)>>)
-  ELSE (CASE m = 1 -> <<P2(<<1, 0, 1>>, <<2, 1, 1>>)>>
-          [] m = 2 -> <<P2(<<1, 1, 0>>, <<1, 2, -1>>)>>
-          [] m = 3 -> <<P2(<<1, 0, 0>>, <<2, 1, 0>>), P2(<<0, 1, 1>>, <<1, 2, 1>>)>>
-          [] OTHER -> <<P2(<<1, -1, 0>>, <<2, -1, 1>>)>>)
+  \* n = 3: pairs chosen so that the BFGS matrix has small denominators (32-bit arithmetic)
+  ELSE (CASE m = 1 -> <<P2(<<1, 0, 0>>, <<2, 1, 1>>)>>
+          [] m = 2 -> <<P2(<<0, 1, 0>>, <<1, 2, -1>>)>>
+          [] m = 3 -> <<P2(<<1, 0, 0>>, <<2, 1, 0>>), P2(<<0, 1, 0>>, <<1, 2, 0>>)>>
+          [] OTHER -> <<P2(<<0, 0, 1>>, <<-1, 1, 2>>)>>)
 
 \* constant-level tables (evaluated once by TLC)
 MenuOf == [m \in Mems |-> Menu(N, m)]
